@@ -78,16 +78,19 @@ pub fn process_cell<T: CoordsFloat>(
         .zip(vertices.iter())
         .enumerate()
         .find_map(|(id, (d0, v0))| {
-            let mut tmp = vertices
-                .windows(2)
-                .enumerate()
-                // remove segments directly attached to v0
-                .filter(|(i_seg, _)| !((n + i_seg) % n == id || (n + i_seg - 1) % n == id))
-                .map(|(_, val)| {
-                    let [v1, v2] = val else { unreachable!() };
+            // orientation of v0 w.r.t. every segment of the polygon it does not belong to,
+            // closing segment included
+            let mut tmp = (0..n)
+                .filter(|i_seg| !(*i_seg == id || (*i_seg + 1) % n == id))
+                .map(|i_seg| {
+                    let (v1, v2) = (&vertices[i_seg], &vertices[(i_seg + 1) % n]);
                     Vertex2::cross_product_from_vertices(v0, v1, v2)
                 });
-            let signum = tmp.next().map(T::signum).unwrap();
+            let first = tmp.next().unwrap();
+            if first.abs() < T::epsilon() {
+                return None;
+            }
+            let signum = first.signum();
             for v in tmp {
                 if v.signum() != signum || v.abs() < T::epsilon() {
                     return None;
